@@ -48,6 +48,22 @@ func c16Spec(rng *rand.Rand, i int) (*SessSpec, string) {
 		}
 		sp.Steps = append(sp.Steps, Step{Op: "barrier"})
 	}
+	if i%12 == 10 {
+		// finite mode: the lag is measured against what the server holds now, not against the end sampled at open. The consumer
+		// is held inside its first delivery (nothing settles, the client cannot finish) while the vBuckets receive more documents.
+		kind = "finite-lag"
+		sp.Mode = "finite"
+		sp.PNow, sp.PDefer = 1, 0
+		sp.HoldConsAtStart = true
+		sp.Steps = []Step{{Op: "waitblocked", N: 1}}
+		for vb := 0; vb < sp.NumVB; vb++ {
+			for k := 0; k < 1+rng.Intn(2); k++ {
+				sp.Steps = append(sp.Steps, Step{Op: "append", VB: vb, Items: genSnap(rng, o, &ctr)})
+			}
+		}
+		sp.Steps = append(sp.Steps, Step{Op: "metrics"}, Step{Op: "releasecons"}, Step{Op: "waitstop", Ms: 4000})
+		return sp, kind
+	}
 	sp.Steps = append(sp.Steps, Step{Op: "barrier"}, Step{Op: "metrics"})
 	switch kind {
 	case "notified":
@@ -232,6 +248,20 @@ func OracleMetrics(tr *Trace) ([]Finding, int) {
 		if !quiet {
 			continue
 		}
+		// a delivery that has not returned at the scrape (consumer blocked): that event may or may not be counted yet, and
+		// stream ends queued behind it have not reached the library
+		inflight := map[int]int{} // vb -> kind of the event inside the listener
+		for _, r := range tr.Log {
+			if r.T >= m.TCall {
+				break
+			}
+			switch r.K {
+			case "cons.deliver.call":
+				inflight[r.VB] = int(r.A)
+			case "cons.deliver.ret":
+				delete(inflight, r.VB)
+			}
+		}
 		n++
 		sumLag := 0.0
 		counters := map[string]float64{}
@@ -267,6 +297,9 @@ func OracleMetrics(tr *Trace) ([]Finding, int) {
 					}
 				}
 				hi = lo
+				if k, ok := inflight[vb]; ok && byte(k) == kc.kind && lo > 0 {
+					lo--
+				}
 				for _, sg := range tr.Segs[vb] {
 					if sg.ReqT < lastOpen {
 						continue
@@ -317,7 +350,11 @@ func OracleMetrics(tr *Trace) ([]Finding, int) {
 					}
 				}
 			}
-			eq("cbgo_active_stream_current", float64(len(assigned)-ended), "active-streams")
+			if len(inflight) == 0 {
+				eq("cbgo_active_stream_current", float64(len(assigned)-ended), "active-streams")
+			} else if v, ok := m.Vals["cbgo_active_stream_current"]; !ok || v < float64(len(assigned)-ended) || v > float64(len(assigned)) {
+				fs = append(fs, Finding{"C16", "active-streams", "C16/active-streams", fmt.Sprintf("scrape %d: cbgo_active_stream_current=%v (present %v) with the consumer inside a delivery; assigned %d, ends sent by the node %d", mi, v, ok, len(assigned), ended)})
+			}
 		}
 		// counters never decrease within an epoch
 		if prevCounters != nil {
